@@ -13,11 +13,11 @@ namespace Expr
 
 /-- the width rules the smart constructors enforce, checked on the whole tree -/
 def wellSorted : Expr → Bool
-  | .scalar s => decide (0 < s.bits)
-  | .const c => decide (0 < c.bits)
+  | .scalar s => decide (0 < s.bits) && decide (s.bits < 2 ^ 64)
+  | .const c => decide (0 < c.bits) && decide (c.bits < 2 ^ 64) && decide (c.val < 2 ^ c.bits)
   | .bin _ l r => l.wellSorted && r.wellSorted && decide (l.bits = r.bits)
   | .ext .trun m e => e.wellSorted && decide (0 < m) && decide (m < e.bits)
-  | .ext _ m e => e.wellSorted && decide (e.bits < m)
+  | .ext _ m e => e.wellSorted && decide (e.bits < m) && decide (m < 2 ^ 64)
   | .ite c t e => c.wellSorted && t.wellSorted && e.wellSorted && decide (c.bits = 1) && decide (t.bits = e.bits)
 
 end Expr
@@ -28,27 +28,25 @@ def isBitConst (e : Expr) (v : Nat) : Bool :=
   | .const c => c.bits == 1 && c.val == v
   | _ => false
 
-/-- `negOf g h` : `h` is syntactically a negation of the 1-bit expression `g`:
-    `g == 0`, `g != 1`, `(g == 1) == 0`, `0 == g`, or `g = (h == 0)` etc. -/
+/-- `h` is `g == 0:1` or `g != 1:1` -/
 def isNegOf (g h : Expr) : Bool :=
   match h with
-  | .bin .cmpeq a b => (a == g && isBitConst b 0) || (b == g && isBitConst a 0)
-      || (match a with
-          | .bin .cmpeq a' b' => isBitConst b 0 && ((a' == g && isBitConst b' 1) || (b' == g && isBitConst a' 1))
-          | _ => false)
-  | .bin .cmpneq a b => (a == g && isBitConst b 1) || (b == g && isBitConst a 1)
-  | .bin .xor a b => (a == g && isBitConst b 1) || (b == g && isBitConst a 1)
+  | .bin .cmpeq a b => a == g && isBitConst b 0
+  | .bin .cmpneq a b => a == g && isBitConst b 1
   | _ => false
 
-/-- complementary comparison pairs: `a == b` / `a != b` -/
+/-- the recognised complementary pairs (the shapes the seven lifters emit; anything else is reported,
+    never silently accepted):
+      S1  `g` / `g == 0`, `g` / `g != 1`   (either order of the pair)
+      S2  `x == 0` / `x == 1`       for a 1-bit `x` (either order)
+      S3  `a == b` / `a != b`       (either order) -/
 def isComplement (g h : Expr) : Bool :=
   isNegOf g h || isNegOf h g ||
   (match g, h with
-   | .bin .cmpeq a b, .bin .cmpneq a' b' => (a == a' && b == b') || (a == b' && b == a')
-   | .bin .cmpneq a b, .bin .cmpeq a' b' => (a == a' && b == b') || (a == b' && b == a')
-   -- `x == 0` / `x == 1` for a 1-bit `x`
    | .bin .cmpeq a b, .bin .cmpeq a' b' =>
        a == a' && a.bits == 1 && ((isBitConst b 0 && isBitConst b' 1) || (isBitConst b 1 && isBitConst b' 0))
+   | .bin .cmpeq a b, .bin .cmpneq a' b' => a == a' && b == b'
+   | .bin .cmpneq a b, .bin .cmpeq a' b' => a == a' && b == b'
    | _, _ => false)
 
 /-- the guards of the out-edges of one block are recognised as "exactly one enabled in every state" -/
